@@ -71,7 +71,9 @@ Init == /\ \E t \in InitTables :
 COrderable == ncols = 3 /\ \A i \in DOMAIN rows : rows[i].c # N
 IndexChoices == {<<"a">>, <<"b">>, <<"a","b">>, <<"b","a">>}
                 \cup (IF COrderable THEN {<<"c">>, <<"c","b">>, <<"a","c">>, <<"c","a","b">>} ELSE {})
-DoIndex == /\ "index" \in Ops /\ sel = Whole
+(* index() is an operation of the base table: views taken before it are abandoned (the driver goes back to the base table), so it
+   may follow a where - index X, query, index Y, query is an ordinary way to use a table *)
+DoIndex == /\ "index" \in Ops
            /\ \E ks \in IndexChoices :
                 LET s == Sorted(rows, ks) IN
                 /\ rows' = s /\ idx' = ks /\ sel' = [i \in 1..Len(rows) |-> i]
